@@ -128,8 +128,8 @@ Section MD32.
   Qed.
 
   (* XXX_Final's digest after any sequence of updates *)
-  Lemma c32_final_digest c m : cinv32 c m ->
-    fst (c32_final T enc_vect iv PAD_spec32 lo1 56 120 3 29 63 64 c) =
+  Lemma c32_final_digest wipe c m : cinv32 c m ->
+    fst (c32_final T enc_vect PAD_spec32 lo1 56 120 3 29 63 64 wipe c) =
     enc_vect (fold_left T (blocks (md_pad_from enc_len base m)) st0).
   Proof. intros H. unfold c32_final. cbn [fst]. fold pad_. rewrite (c32_pad_state c m H). reflexivity. Qed.
 End MD32.
@@ -168,8 +168,8 @@ Section MD32Final.
     - apply IH. rewrite skipn_length. lia.
   Qed.
 
-  Theorem md32_resume_correct c parts : wf32 nstate lo1 c ->
-    fst (c32_final T enc_vect iv PAD_spec32 lo1 56 120 3 29 63 64
+  Theorem md32_resume_correct wipe c parts : wf32 nstate lo1 c ->
+    fst (c32_final T enc_vect PAD_spec32 lo1 56 120 3 29 63 64 wipe
                    (fold_left (c32_update T lo1 3 29 63 64) parts c)) =
     enc_vect (md_resume compress enc_len (c32_state c) (c32_hi lo1 c * M32 + c32_lo lo1 c)
                         (c32_buf c) (concat parts)).
@@ -187,7 +187,7 @@ Section MD32Final.
         exists 0%nat. reflexivity.
       - rewrite HR. fold bits. unfold base, r, bits, M32, M64 in *. lia. }
     pose proof (c32_updates_inv T enc_vect enc_len lo1 Henc Henc_len _ _ Hbase parts c _ H0) as H1.
-    rewrite (c32_final_digest T enc_vect enc_len iv lo1 Henc Henc_len _ _ Hbase _ _ H1).
+    rewrite (c32_final_digest T enc_vect enc_len lo1 Henc Henc_len _ _ Hbase wipe _ _ H1).
     unfold md_resume. fold r. fold base. f_equal.
     apply fold_T_eq; [exact Hst|]. unfold blocks. apply chunks_all64'. lia.
   Qed.
